@@ -498,3 +498,117 @@ func DeleteOverlap(r *hx.Rng, bind bool) []hx.Zs {
 	lists(peers...)
 	return h
 }
+
+// Reannounce is a history for "an entity announced again keeps its registry entries": a peer holds
+// subscriptions and bindings made from its entity [1] (and [2]), then announces [1] again
+// (detailed-discovery notification, lastStateChange added for the EXISTING entity) with none, some
+// or all of its features - DeviceRemote.AddEntityAndFeatures empties and rebuilds the feature list -
+// and after that is torn down: disconnect (sometimes overlapped by a call of another peer) or an
+// entity-removed notification.  Listings, a data change (fan-out), a bind request and a write of
+// another peer for the server feature the removed peer had bound follow: nothing of the removed
+// entity may survive.
+func Reannounce(r *hx.Rng) []hx.Zs {
+	var h []hx.Zs
+	e := []int64{1}
+	h = append(h, OpAddLocalEntity(e),
+		OpAddLocalFeature(e, 1, 1), OpAddFunction(e, 1, 1, true, true),
+		OpAddLocalFeature(e, 2, 1), OpAddFunction(e, 2, 3, true, true))
+	srv := []FAddr{{Dev: 1, Ent: e, Feat: 2}, {Dev: 1, Ent: e, Feat: 3}}
+	n := int64(r.Range(2, 3))
+	var peers []Peer
+	for k := int64(1); k <= n; k++ {
+		p := Peer{Ski: k, Dev: k, Ents: [][]int64{{0}, {1}, {2}}, Feats: []RFeat{{Ent: []int64{0}, Id: 0, Type: 5, Role: 2},
+			{Ent: []int64{1}, Id: 1, Type: 1, Role: 0}, {Ent: []int64{1}, Id: 2, Type: 2, Role: 0},
+			{Ent: []int64{2}, Id: 1, Type: 1, Role: 0}}}
+		peers = append(peers, p)
+		h = append(h, OpConnect(k), OpDiscoveryReply(k, p.Msg(0, nil)))
+	}
+	ctr := map[int64]int64{}
+	next := func(p int64) int64 { ctr[p]++; return 100*p + ctr[p] }
+	// client feature j (0: [1]:1 type 1, 1: [1]:2 type 2, 2: [2]:1 type 1) of p with its server feature
+	type pair struct {
+		cli FAddr
+		s   int
+	}
+	mk := func(p Peer, j int) pair {
+		switch j {
+		case 0:
+			return pair{FAddr{Dev: p.Dev + 1, Ent: []int64{1}, Feat: 2}, 0}
+		case 1:
+			return pair{FAddr{Dev: p.Dev + 1, Ent: []int64{1}, Feat: 3}, 1}
+		}
+		return pair{FAddr{Dev: p.Dev + 1, Ent: []int64{2}, Feat: 2}, 0}
+	}
+	sub := func(p Peer, j int) {
+		x := mk(p, j)
+		h = append(h, OpSubCall(p.Ski, next(p.Ski), r.Bool(), x.cli, srv[x.s], int64(x.s)+2))
+	}
+	bind := func(p Peer, j int) {
+		x := mk(p, j)
+		h = append(h, OpBindCall(p.Ski, next(p.Ski), r.Bool(), x.cli, srv[x.s], int64(x.s)+2))
+	}
+	lists := func() {
+		for _, p := range peers {
+			h = append(h, OpListSubs(p.Ski), OpListBinds(p.Ski))
+		}
+	}
+	change := func() {
+		h = append(h, OpSetData(e, 1, 1, int64(r.Range(1, 900))), OpSetData(e, 2, 3, int64(r.Range(1, 900))))
+	}
+	a, b := peers[0], peers[1]
+	// a: entries from entity [1] (and sometimes [2]); b: a subscription of its own
+	for j := 0; j < 3; j++ {
+		if j < 2 && r.Chance(4, 5) || j == 2 && r.Bool() {
+			sub(a, j)
+		}
+	}
+	ja := r.Intn(2) // the server feature a binds (from entity [1])
+	if r.Chance(5, 6) {
+		bind(a, ja)
+	}
+	if r.Bool() {
+		sub(b, r.Intn(3))
+	}
+	// entity [1] of a announced again
+	m := DiscMsg{Dev: a.Dev + 1, Ents: []DiscEnt{{Addr: []int64{1}, State: 1}}}
+	switch r.Pick(5, 3, 1) {
+	case 0: // no feature information at all
+	case 1: // a subset
+		for _, f := range a.Feats {
+			if eqE(f.Ent, []int64{1}) && r.Bool() {
+				m.Feats = append(m.Feats, DiscFeat{Ent: f.Ent, Id: f.Id, Type: f.Type, Role: f.Role})
+			}
+		}
+	default:
+		m = a.Msg(1, [][]int64{{1}})
+	}
+	h = append(h, OpDiscoveryNotify(a.Ski, next(a.Ski), r.Bool(), m))
+	if r.Bool() {
+		lists()
+		change() // the entries are still there: a is still notified
+	}
+	if r.Chance(1, 4) {
+		sub(a, r.Intn(2)) // from a feature that may be gone now
+	}
+	// teardown
+	call := OpSubCall(b.Ski, next(b.Ski), r.Bool(), mk(b, 1).cli, srv[1], 3)
+	switch r.Pick(5, 2, 2) {
+	case 0:
+		h = append(h, OpDisconnect(a.Ski))
+	case 1:
+		h = append(h, OpDuring(OpDisconnect(a.Ski), call))
+	default:
+		h = append(h, OpDiscoveryNotify(a.Ski, next(a.Ski), r.Bool(), a.Msg(2, [][]int64{{1}})))
+	}
+	lists()
+	change()
+	// the server feature a had bound is free again: b gets it and writes through it
+	bind(b, ja)
+	if ja == 0 {
+		h = append(h, OpWrite(b.Ski, next(b.Ski), r.Bool(), mk(b, 0).cli, srv[0], 1, int64(r.Range(1, 900))))
+	} else {
+		h = append(h, OpWrite(b.Ski, next(b.Ski), r.Bool(), mk(b, 1).cli, srv[1], 3, int64(r.Range(1, 900))))
+	}
+	h = append(h, OpListBinds(b.Ski), OpReadData(e, int64(ja)+1, []int64{1, 3}[ja]))
+	return h
+}
